@@ -1,8 +1,132 @@
-import PyGam.Drv.Common
+import PyGam.Model.Invariance
+import PyGam.Model.Solve
+import PyGam.Drv.TermParse
 namespace PyGam.Drv.C12
-open PyGam PyGam.Drv
+open PyGam PyGam.Drv PyGam.Inv
 
-/-- operations of the C12 model driver (`C12 <op> <args…>`); `none` ↦ `bad-op` -/
-def handle : List String → Option String
+def toMat (rows cols : Nat) (l : List Rat) : Nat → Nat → Rat :=
+  let a := l.toArray
+  fun i j => if i < rows ∧ j < cols then a[i * cols + j]! else 0
+
+def toVec (l : List Rat) : Nat → Rat :=
+  let a := l.toArray
+  fun i => a[i]!
+
+def toVecN (l : List Nat) : Nat → Nat :=
+  let a := l.toArray
+  fun i => a[i]!
+
+def flags (l : List String) : Nat → Bool :=
+  let a := (l.map (fun s => s == "1")).toArray
+  fun i => a[i]!
+
+def ratAbs (x : Rat) : Rat := if x < 0 then 0 - x else x
+
+def maxAbsDiff (n : Nat) (u v : Nat → Rat) : Rat :=
+  (List.range n).foldl (fun acc j => let d := ratAbs (u j - v j); if acc < d then d else acc) 0
+
+def matEq (n m : Nat) (X Y : Nat → Nat → Rat) : Bool :=
+  (List.range n).all (fun i => (List.range m).all (fun j => X i j == Y i j))
+
+def vecEq (n : Nat) (u v : Nat → Rat) : Bool := (List.range n).all (fun i => u i == v i)
+
+def zeroMat : Nat → Nat → Rat := fun _ _ => 0
+
+/-- tabulate an `m × m` function once (the model definitions are re-evaluated on every access otherwise) -/
+def tabMat (n m : Nat) (X : Nat → Nat → Rat) : Nat → Nat → Rat :=
+  let a := (Array.range n).map (fun i => (Array.range m).map (fun j => X i j))
+  fun i j => a[i]![j]!
+
+def tabVec (n : Nat) (v : Nat → Rat) : Nat → Rat :=
+  let a := (Array.range n).map v
+  fun i => a[i]!
+
+def solveRat (m : Nat) (N : Nat → Nat → Rat) (rhs : Nat → Rat) : Option (Array Rat) :=
+  gaussSolve m ((Array.range m).map (fun i => (Array.range m).map (fun j => N i j))) ((Array.range m).map rhs)
+
+/-- operations of the C12 model driver (`C12 <op> <args…>`); `none` ↦ `bad-op`.  All numbers are exact rationals.
+
+* `colsaff <terms> | <x…> | <a…> | <b…>` → `<max |row' - row|> | <row'>` where `row = columnsAll x terms` and
+  `row' = columnsAll (mapRow a b x) (terms.map (affineKnots a b))` (C12 `affine_feature_invariance`: the difference is 0)
+* `normperm <n> <m> | B | W2 | z | keep | σ` → `eq|ne | <N row-major> | <rhs>`: `normalMat`/`normalRhs` (with `A = 0`) of
+  the rows permuted by `σ` against the original (`normal_matrix_perm`, `normal_rhs_perm`)
+* `normrepl <n> <m> | B | u | z | keep | w` → `eq|ne <n'> | <N> | <rhs>`: rows replicated `w_i` times with unit weights `u`
+  against the original rows with weights `w_i u_i` (`weights_eq_replication`)
+* `lin <n> <m> | B | A | w | y1 | y2 | c` → `<res0> <add> <hom> | <β(y1)>`: exact solutions of the normal equations for
+  `y1`, `y2`, `y1 + y2`, `c·y1` (`solution_add`, `solution_smul`) -/
+def handle (toks : List String) : Option String :=
+  match toks with
+  | "colsaff" :: rest =>
+    match splitBar rest with
+    | [ts, xs, as, bs] => do
+        let (terms, r) ← pTerms ts
+        if r ≠ [] then none else
+        let x ← parseRats? xs; let a ← parseRats? as; let b ← parseRats? bs
+        if a.length ≠ x.length ∨ b.length ≠ x.length then none else
+        let av : Nat → Rat := fun f => a.getD f 1
+        let bv : Nat → Rat := fun f => b.getD f 0
+        let xv := listToVec x
+        let k := nCoefsAll terms
+        let terms' := terms.map (Term.affineKnots av bv)
+        if nCoefsAll terms' ≠ k then none else
+        let row := tabVec k (columnsAll epsRat xv terms)
+        let row' := tabVec k (columnsAll epsRat (mapRow av bv xv) terms')
+        some (showRat (maxAbsDiff k row row') ++ " | " ++ showRatList (vecToList k row'))
+    | _ => none
+  | "normperm" :: n :: m :: rest =>
+    match splitBar rest with
+    | [[], bs, ws, zs, ks, ss] => do
+        let n ← n.toNat?; let m ← m.toNat?
+        let bl ← parseRats? bs; let wl ← parseRats? ws; let zl ← parseRats? zs; let sl ← parseNats? ss
+        if bl.length ≠ n * m ∨ wl.length ≠ n ∨ zl.length ≠ n ∨ ks.length ≠ n ∨ sl.length ≠ n then none else
+        -- σ must be a permutation of range n
+        if !((List.range n).all (fun i => sl.contains i)) then none else
+        let B := toMat n m bl; let W2 := toVec wl; let z := toVec zl; let keep := flags ks; let σ := toVecN sl
+        let N := tabMat m m (normalMat n B keep W2 zeroMat)
+        let rhs := tabVec m (normalRhs n B keep W2 z)
+        let N' := tabMat m m (normalMat n (permRows σ B) (permVecB σ keep) (permVec σ W2) zeroMat)
+        let rhs' := tabVec m (normalRhs n (permRows σ B) (permVecB σ keep) (permVec σ W2) (permVec σ z))
+        let ok := matEq m m N N' && vecEq m rhs rhs'
+        some ((if ok then "eq" else "ne") ++ " | " ++ showRatList ((matToLists m m N').flatten) ++ " | "
+              ++ showRatList (vecToList m rhs'))
+    | _ => none
+  | "normrepl" :: n :: m :: rest =>
+    match splitBar rest with
+    | [[], bs, us, zs, ks, ws] => do
+        let n ← n.toNat?; let m ← m.toNat?
+        let bl ← parseRats? bs; let ul ← parseRats? us; let zl ← parseRats? zs; let wl ← parseNats? ws
+        if bl.length ≠ n * m ∨ ul.length ≠ n ∨ zl.length ≠ n ∨ ks.length ≠ n ∨ wl.length ≠ n then none else
+        let B := toMat n m bl; let u := toVec ul; let z := toVec zl; let keep := flags ks; let w := toVecN wl
+        let idx := replIdx n w
+        let src := replSrc idx
+        let N := tabMat m m (normalMat n B keep (fun r => (w r : Rat) * u r) zeroMat)
+        let rhs := tabVec m (normalRhs n B keep (fun r => (w r : Rat) * u r) z)
+        let N' := tabMat m m (normalMat idx.length (permRows src B) (permVecB src keep) (permVec src u) zeroMat)
+        let rhs' := tabVec m (normalRhs idx.length (permRows src B) (permVecB src keep) (permVec src u) (permVec src z))
+        let ok := matEq m m N N' && vecEq m rhs rhs'
+        some ((if ok then "eq " else "ne ") ++ toString idx.length ++ " | " ++ showRatList ((matToLists m m N').flatten)
+              ++ " | " ++ showRatList (vecToList m rhs'))
+    | _ => none
+  | "lin" :: n :: m :: rest =>
+    match splitBar rest with
+    | [[], bs, as, ws, y1s, y2s, [cs]] => do
+        let n ← n.toNat?; let m ← m.toNat?
+        let bl ← parseRats? bs; let al ← parseRats? as; let wl ← parseRats? ws
+        let y1l ← parseRats? y1s; let y2l ← parseRats? y2s; let c ← parseRat? cs
+        if bl.length ≠ n * m ∨ al.length ≠ m * m ∨ wl.length ≠ n ∨ y1l.length ≠ n ∨ y2l.length ≠ n then none else
+        let B := toMat n m bl; let A := toMat m m al; let w := toVec wl; let y1 := toVec y1l; let y2 := toVec y2l
+        let keep : Nat → Bool := fun _ => true
+        let N := tabMat m m (normalMat n B keep w A)
+        let rhsOf := fun (y : Nat → Rat) => tabVec m (normalRhs n B keep w y)
+        let β1 ← solveRat m N (rhsOf y1)
+        let β2 ← solveRat m N (rhsOf y2)
+        let β12 ← solveRat m N (rhsOf (fun r => y1 r + y2 r))
+        let βc ← solveRat m N (rhsOf (fun r => c * y1 r))
+        let res0 := vecEq m (mulVec m N (fun j => β1[j]!)) (rhsOf y1)
+        let add := vecEq m (fun j => β12[j]!) (fun j => β1[j]! + β2[j]!)
+        let hom := vecEq m (fun j => βc[j]!) (fun j => c * β1[j]!)
+        let f := fun (b : Bool) => if b then "1" else "0"
+        some (f res0 ++ " " ++ f add ++ " " ++ f hom ++ " | " ++ showRatList β1.toList)
+    | _ => none
   | _ => none
 end PyGam.Drv.C12
